@@ -633,17 +633,20 @@ theorem insLst_append (l : List Obj) (o : Obj) (he : isArgObj o.e = true) :
   have : ¬ ((l.length : Int) < 0) := by omega
   simp [insLst, listed, he, specInsert, this]
 
-/-- Extending by objects that are arguments never fails and appends them in order – in
-particular `TexArgs(items)` for items taken out of a list. -/
+/-- Extending by objects that are arguments never fails, appends them in order, allocates
+nothing, and puts nothing but them into `.all` – in particular `TexArgs(items)` for items
+taken out of a list, and `extend` by another `TexArgs`. -/
 theorem extend_args (st : ArgsSt) (es : List Obj) (h : Inv st)
     (hes : ∀ o ∈ es, isArgObj o.e = true) :
-    ∃ st', Args.extend st (es.map .grp) = (st', .none) ∧ st'.lst = st.lst ++ es ∧ Inv st' := by
+    ∃ st', Args.extend st (es.map .grp) = (st', .none) ∧ st'.lst = st.lst ++ es ∧
+      st'.next = st.next ∧ Inv st' ∧
+      (∀ x ∈ st'.all, x ∈ st.all ∨ ∃ o ∈ es, x = .grp o) := by
   induction es generalizing st with
-  | nil => exact ⟨st, rfl, by simp, h⟩
+  | nil => exact ⟨st, rfl, by simp, rfl, h, fun x hx => Or.inl hx⟩
   | cons e r ih =>
     have he := hes e (by simp)
     simp only [List.map_cons, Args.extend, Args.append]
-    rcases insert_char st st.lst.length (.grp e) h with ⟨hc, _⟩ | ⟨it, n, all', hc, hi, _, hinv⟩
+    rcases insert_char st st.lst.length (.grp e) h with ⟨hc, _⟩ | ⟨it, n, all', hc, hi, hadds, hinv⟩
     · rw [coerce_grp_arg _ he] at hc; simp at hc
     · rw [coerce_grp_arg _ he] at hc
       cases hc
@@ -651,8 +654,13 @@ theorem extend_args (st : ArgsSt) (es : List Obj) (h : Inv st)
       simp only
       rw [insLst_append _ _ he] at hinv ⊢
       rcases ih ⟨st.lst ++ [e], all', st.next⟩ hinv (fun x hx => hes x (by simp [hx])) with
-        ⟨st', h1, h2, h3⟩
-      exact ⟨st', h1, by simp [h2], h3⟩
+        ⟨st', h1, h2, h3, h4, h5⟩
+      refine ⟨st', h1, by simp [h2], h3, h4, fun x hx => ?_⟩
+      rcases h5 x hx with hx | ⟨o, ho, rfl⟩
+      · rcases hadds.2 x hx with rfl | hx
+        · exact Or.inr ⟨e, by simp, rfl⟩
+        · exact Or.inl hx
+      · exact Or.inr ⟨o, by simp [ho], rfl⟩
 
 theorem slice_char (st : ArgsSt) (lo hi : Option Int) (h : Inv st) :
     ∃ st', Args.slice st lo hi = (st, .sliceResult st') ∧ st'.lst = specSlice st.lst lo hi ∧
@@ -662,9 +670,47 @@ theorem slice_char (st : ArgsSt) (lo hi : Option Int) (h : Inv st) :
     intro e he
     unfold pySlice at he
     exact h.args e (List.mem_of_mem_take (List.mem_of_mem_drop he))
-  rcases extend_args (.empty st.next) (pySlice st.lst lo hi) (inv_empty _) hsub with ⟨st', h1, h2, h3⟩
+  rcases extend_args (.empty st.next) (pySlice st.lst lo hi) (inv_empty _) hsub with
+    ⟨st', h1, h2, _, h3, _⟩
   rw [h1]
   exact ⟨st', rfl, by simp [h2, ArgsSt.empty, pySlice_eq_spec], h3⟩
+
+theorem specSlice_sub (l : List Obj) (lo hi : Option Int) : ∀ o ∈ specSlice l lo hi, o ∈ l := by
+  intro o ho
+  unfold specSlice at ho
+  exact List.mem_of_mem_drop (List.mem_of_mem_take ho)
+
+/-- `args.extend(args[lo:hi])`: never fails, appends the slice, allocates nothing. -/
+theorem extendSlice_char (st : ArgsSt) (lo hi : Option Int) (h : Inv st) :
+    ∃ st', Args.extendSlice st lo hi = (st', .none) ∧
+      st'.lst = st.lst ++ specSlice st.lst lo hi ∧ st'.next = st.next ∧ Inv st' ∧
+      (∀ x ∈ st'.all, x ∈ st.all ∨ ∃ o ∈ st.lst, x = .grp o) := by
+  unfold Args.extendSlice Args.construct
+  have hsub : ∀ o ∈ pySlice st.lst lo hi, isArgObj o.e = true := by
+    intro e he
+    rw [pySlice_eq_spec] at he
+    exact h.args e (specSlice_sub _ _ _ _ he)
+  rcases extend_args (.empty st.next) (pySlice st.lst lo hi) (inv_empty _) hsub with
+    ⟨src, h1, h2, _, _, _⟩
+  rw [h1]
+  simp only
+  have hsrc : src.lst = specSlice st.lst lo hi := by simp [h2, ArgsSt.empty, pySlice_eq_spec]
+  rw [hsrc]
+  rcases extend_args st (specSlice st.lst lo hi) h
+      (fun o ho => h.args o (specSlice_sub _ _ _ _ ho)) with ⟨st', g1, g2, g3, g4, g5⟩
+  refine ⟨st', g1, g2, g3, g4, fun x hx => ?_⟩
+  rcases g5 x hx with hx | ⟨o, ho, rfl⟩
+  · exact Or.inl hx
+  · exact Or.inr ⟨o, specSlice_sub _ _ _ _ ho, rfl⟩
+
+/-- `a.extend(b)` for a `TexArgs` `b`: never fails, appends `b`'s list, allocates nothing. -/
+theorem extendBy_char (a b : ArgsSt) (ha : Inv a) (hb : Inv b) :
+    ∃ a', Args.extendBy a b = (a', .none) ∧ a'.lst = a.lst ++ b.lst ∧
+      a'.next = max a.next b.next ∧ Inv a' ∧
+      (∀ x ∈ a'.all, x ∈ a.all ∨ ∃ o ∈ b.lst, x = .grp o) := by
+  unfold Args.extendBy
+  rcases extend_args (Args.syncNext a b) b.lst (inv_next ha _) hb.args with ⟨a', h1, h2, h3, h4, h5⟩
+  exact ⟨a', h1, h2, h3, h4, h5⟩
 
 theorem getItem_char (st : ArgsSt) (i : Int) :
     (specIdx st.lst.length i = none ∧ Args.getItem st i = (st, .indexError)) ∨
@@ -742,6 +788,10 @@ theorem step_core (st : ArgsSt) (op : ArgsOp) (h : Inv st) :
   | str =>
     simp only [Args.step, specStep, Args.str, abs]
     exact ⟨trivial, h, serL_eq_flatten _⟩
+  | extendSlice lo hi =>
+    simp only [Args.step, specStep, abs]
+    rcases extendSlice_char st lo hi h with ⟨st', hs, hl, hn, hinv, _⟩
+    rw [hs]; exact ⟨by rw [hl, hn], hinv, trivial⟩
 
 /-! ## The pool of the property: plain groups -/
 
@@ -871,6 +921,20 @@ theorem plain_step (st : ArgsSt) (op : ArgsOp) (h : Inv st) (hp : PlainSt st)
     rcases slice_char st lo hi h with ⟨st', hs, _, _⟩
     rw [hs]; exact hp
   | str => exact hp
+  | extendSlice lo hi =>
+    simp only [Args.step]
+    rcases extendSlice_char st lo hi h with ⟨st', hs, hl, _, _, hall⟩
+    rw [hs]
+    constructor
+    · intro o ho
+      rw [hl] at ho
+      rcases List.mem_append.mp ho with ho | ho
+      · exact hp.lst o ho
+      · exact hp.lst o (specSlice_sub _ _ _ _ ho)
+    · intro x hx
+      rcases hall x hx with hx | ⟨o, ho, rfl⟩
+      · exact hp.all x hx
+      · exact hp.lst o ho
 
 /-- On plain pools a textual twin has the same value (it may be another object). -/
 theorem twin_value_of_plain {st : ArgsSt} (hp : PlainSt st) {it : ArgItem} {o : Obj}
